@@ -1,2 +1,4 @@
 pub mod c07;
 pub mod hprops;
+pub mod c06;
+pub mod c08;
